@@ -128,6 +128,19 @@ chk("C09", "model_checking",
     "TLA+ specs (XmlLimit, RrdpDoc) model-checked by TLC incl. liveness; spec->impl replay; impl->spec trace validation of hook events",
     "DESIGN.md §3 C09")
 
+chk("C05", "model_checking",
+    "BuildDecode.tla is the builder-input machine (9 object kinds x serial forms x validity windows straddling the UTCTime/"
+    "GeneralizedTime boundaries x resource shapes x URI forms x every insertion order of <= 3 list items) plus the captured-layout "
+    "discipline and, over X509Time's encoder model, the expected time tags/characters and minimal serial INTEGERs; TbsBuilder.tla is the "
+    "certificate builder as a state machine (TbsCert::new + 18 setters, SkiTracksKey, OneField). TLC enumerates every state; each is "
+    "replayed through the real builders with real RSA keys: build, encode, decode, validate, re-encode (bytes equal), every accessor of "
+    "the built object and its decoded twin compared, DER forms compared with the model's, setter scripts compared field by field with "
+    "the model's record.",
+    "Value classes with fixed representatives; a fidelity property, so the specification contributes the case structure, the builder state "
+    "machine and the expected DER forms rather than an interleaving argument.",
+    "TLA+ specs (BuildDecode over X509Time, TbsBuilder) model-checked by TLC; exhaustive spec->impl replay through the real builders/decoders",
+    "DESIGN.md §3 C05")
+
 chk("C14", "model_checking",
     "Manifest.tla states the RFC 9286 file-name grammar, transcribes validate_file_name and resolves names against a base with "
     "UriAlgebra's join/parent; TLC checks transcription = grammar and that every valid name resolves directly inside the base, for "
